@@ -316,7 +316,7 @@ func checkCtor(p *Prog, r *Report, ctor *ssa.Function, tg *ssa.Global) *types.Na
 				detail = fmt.Sprintf("a path consistent with n=%d does not return an error", nv)
 			}
 			for _, e := range s.Events {
-				if e.Kind == EvCall && (calleeFull(e.Call) == "sort.Search" || strings.HasPrefix(calleeFull(e.Call), "math/big") || strings.HasPrefix(calleeFull(e.Call), "(*math/big")) {
+				if e.Kind == EvCall && (calleeFull(e.Call) == "sort.Search" || calleeFull(e.Call) == "sort.Find" || strings.HasPrefix(calleeFull(e.Call), "math/big") || strings.HasPrefix(calleeFull(e.Call), "(*math/big")) {
 					okReject = false
 					detail = fmt.Sprintf("a path consistent with n=%d reaches %s", nv, calleeFull(e.Call))
 				}
@@ -330,7 +330,7 @@ func checkCtor(p *Prog, r *Report, ctor *ssa.Function, tg *ssa.Global) *types.Na
 	var search *ssa.Call
 	for _, s := range fp.Segs {
 		for _, e := range s.Events {
-			if e.Kind == EvCall && calleeFull(e.Call) == "sort.Search" {
+			if e.Kind == EvCall && (calleeFull(e.Call) == "sort.Search" || calleeFull(e.Call) == "sort.Find") {
 				search = e.Instr.(*ssa.Call)
 			}
 		}
@@ -340,6 +340,15 @@ func checkCtor(p *Prog, r *Report, ctor *ssa.Function, tg *ssa.Global) *types.Na
 	var loopHead *ssa.BasicBlock
 	if search != nil {
 		selIdx, selPos = search, search.Pos()
+		isFind := calleeFull(&search.Call) == "sort.Find"
+		if isFind {
+			// idx, _ := sort.Find(n, cmp): the index is result #0
+			for _, ref := range *search.Referrers() {
+				if ex, isEx := ref.(*ssa.Extract); isEx && ex.Index == 0 {
+					selIdx = ex
+				}
+			}
+		}
 		lenOK := false
 		if bi, ok := stripConv(search.Call.Args[0]).(*ssa.Call); ok {
 			if b, ok := bi.Call.Value.(*ssa.Builtin); ok && b.Name() == "len" && globalOfLoad(bi.Call.Args[0]) == tg {
@@ -349,7 +358,73 @@ func checkCtor(p *Prog, r *Report, ctor *ssa.Function, tg *ssa.Global) *types.Na
 		r.Check(lenOK, "C04.R2", name+"/search-bound", p.Pos(search.Pos()), "sort.Search ranges over the whole table (len(table))", "first argument is not len(table)")
 		predOK := false
 		predDetail := "predicate is not `table[i].P > n`"
-		if cl := funcOfValue(search.Call.Args[1], 0); cl != nil && len(cl.Blocks) == 1 {
+		if cl := funcOfValue(search.Call.Args[1], 0); cl != nil && (len(cl.Blocks) > 1 || isFind) {
+			// a predicate / comparator written with branches: every returning path returns a constant, and the
+			// constant says "selected" (true, or <= 0 for sort.Find) exactly on the paths where row.P > n holds
+			cfp := Paths(cl)
+			good, nRet := !cfp.Truncated && len(cfp.Headers) == 0, 0
+			for _, cs := range cfp.Segs {
+				if !cs.Returns() {
+					continue
+				}
+				nRet++
+				ret := cs.Exit.(*ssa.Return)
+				k, isK := cs.Resolve(ret.Results[0]).(*ssa.Const)
+				if !isK || k.Value == nil {
+					good = false
+					continue
+				}
+				selected := false
+				if isFind {
+					kv, okK := constInt(k)
+					if !okK {
+						good = false
+						continue
+					}
+					selected = kv <= 0
+				} else {
+					selected = k.Value.String() == "true"
+				}
+				decided := false
+				for _, f := range cs.Facts {
+					bo, isB := f.Cond.(*ssa.BinOp)
+					if !isB {
+						continue
+					}
+					x, y, op := bo.X, bo.Y, bo.Op
+					if isNFree(x, nParam) && !isNFree(y, nParam) {
+						x, y = y, x
+						switch op {
+						case token.LSS:
+							op = token.GTR
+						case token.LEQ:
+							op = token.GEQ
+						case token.GTR:
+							op = token.LSS
+						case token.GEQ:
+							op = token.LEQ
+						}
+					}
+					if !isRowFieldOfIndex(x, tg, cl.Params[0], "P") || !isNFree(y, nParam) {
+						continue
+					}
+					greater := (op == token.GTR && f.Truth) || (op == token.LEQ && !f.Truth)
+					notGreater := (op == token.GTR && !f.Truth) || (op == token.LEQ && f.Truth)
+					if !greater && !notGreater {
+						predDetail = "predicate is not strict: a group with P == n misses the value n"
+						continue
+					}
+					decided = true
+					if greater != selected {
+						good = false
+					}
+				}
+				if !decided {
+					good = false
+				}
+			}
+			predOK = good && nRet >= 2
+		} else if cl != nil && len(cl.Blocks) == 1 {
 			if ret, ok := cl.Blocks[0].Instrs[len(cl.Blocks[0].Instrs)-1].(*ssa.Return); ok && len(ret.Results) == 1 {
 				if bo, ok := ret.Results[0].(*ssa.BinOp); ok {
 					x, y := bo.X, bo.Y
@@ -789,8 +864,11 @@ func checkAlgebra(p *Prog, r *Report, ctor *ssa.Function, s *Seg, nParam *ssa.Pa
 				state[z] = &sym{op: strings.ToLower(m), args: []*sym{val(args[1]), val(args[2])}}
 			case "Set":
 				state[z] = val(args[1])
-			case "SetInt64":
+			case "SetInt64", "SetUint64":
 				state[z] = intSym(args[1])
+				if state[z] == nil {
+					undec = "big.Int." + m + " of an unrecognised integer expression at " + p.Pos(e.Instr.Pos())
+				}
 			case "Cmp", "Int64", "String", "Sign", "IsInt64", "BitLen":
 				continue
 			default:
